@@ -240,8 +240,16 @@ func IsSafeObjectKey(key string) bool {
 	if key == reservedTmpDir || strings.HasPrefix(key, reservedTmpDir+"/") {
 		return false
 	}
-	for _, seg := range strings.Split(key, "/") {
+	segs := strings.Split(key, "/")
+	for i, seg := range segs {
 		if seg == "." || seg == ".." {
+			return false
+		}
+		// an empty path element ("a//b", "/a") cannot be stored: the
+		// file system resolves such a key to the key without it, while
+		// policies and ACL checks are evaluated for the key as written.
+		// (a single trailing slash names a directory object)
+		if seg == "" && i != len(segs)-1 {
 			return false
 		}
 	}
